@@ -172,6 +172,68 @@ def aggregate_probe(seed):
         shutil.rmtree(d, ignore_errors=True)
 
 
+def interrupted_total_probe():
+    """a removal aggregate that is interrupted (another client takes a shard's write lock after the
+    first committed batch and keeps it for a few attempts) resumes and returns the TOTAL number of
+    items removed over all attempts and shards"""
+    import shutil
+    import sqlite3
+    import tempfile
+    import diskcache
+    from impl import Env
+    env = Env.get()
+    root = os.environ.get('VERIF_SCRATCH') or tempfile.gettempdir()
+    bad = []
+    for meth in ('clear', 'evict', 'expire', 'cull'):
+        for busy in (1, 3):
+            d = tempfile.mkdtemp(prefix='agg2-', dir=root)
+            try:
+                env.rec.enabled = False
+                env.clock.t = 1000
+                fc = diskcache.FanoutCache(d, shards=2, timeout=0, cull_limit=0)
+                for i in range(320):
+                    fc.set(i, i, tag='t', expire=5)
+                env.clock.t = 2000
+                env.rec.enabled = True
+                first = os.path.join(d, '000')
+                n0 = sqlite3.connect(os.path.join(first, 'cache.db')).execute('SELECT COUNT(*) FROM Cache').fetchone()[0]
+                seen = {'commits': 0, 'con': None, 'busy': 0}
+
+                def hook(kind, detail, seen=seen, first=first, busy=busy, n0=n0):
+                    if kind == 'sql' and detail == 'COMMIT':
+                        seen['commits'] += 1
+                    elif kind == 'sql' and detail == 'BEGIN':
+                        if seen['commits'] == 1 and seen['con'] is None and n0 > 100:
+                            con = sqlite3.connect(os.path.join(first, 'cache.db'), timeout=0, isolation_level=None)
+                            con.execute('BEGIN IMMEDIATE')
+                            seen['con'] = con
+                        elif seen['con'] is not None and seen['busy'] < busy:
+                            seen['busy'] += 1
+                            if seen['busy'] == busy:
+                                seen['con'].execute('ROLLBACK')
+                env.rec.on_action = hook
+                try:
+                    got = fc.evict('t') if meth == 'evict' else getattr(fc, meth)()
+                finally:
+                    env.rec.on_action = None
+                    if seen['con'] is not None:
+                        try:
+                            seen['con'].execute('ROLLBACK')
+                        except sqlite3.OperationalError:
+                            pass
+                        seen['con'].close()
+                left = len(fc)
+                if got != 320 or left != 0:
+                    bad.append('FanoutCache.%s() of 320 removable items in 2 shards, interrupted after the first batch for %d attempt(s): returned %r, %d items left '
+                               '(the counts of interrupted attempts must be included)' % (meth, busy, got, left))
+                fc.close()
+            finally:
+                env.rec.on_action = None
+                env.rec.enabled = True
+                shutil.rmtree(d, ignore_errors=True)
+    return bad
+
+
 def run(tier, seed, rng, known, replay):
     if replay:
         return base.replay_file(replay, 'C13', ('result', 'state'), acceptor)
@@ -198,6 +260,8 @@ def run(tier, seed, rng, known, replay):
         if v and len(violations) < 3:
             violations.append({'replay': {'property': 'C13', 'kind': 'aggregate-probe', 'probe_seed': s_, 'acceptor': v},
                                'found_input': True, 'what': v})
+    for v in interrupted_total_probe()[:2]:
+        violations.append({'replay': {'property': 'C13', 'kind': 'interrupted-aggregate-probe', 'acceptor': v}, 'found_input': True, 'what': v})
     v = probe_d11()
     if v:
         k = base.match_known(known, {'cfg': {}}, None, v)
